@@ -446,33 +446,23 @@ func isZeroConst(v ssa.Value) bool {
 	return false
 }
 
-// zeroEdge: the edge establishes root.path == zero value.
+// zeroEdge: the edge establishes root.path == zero value (in any spelling of the test, see zeroTest).
 func zeroEdge(a, b *ssa.BasicBlock, path string, root ssa.Value) bool {
-	x, op, y, ok := edgeFact(a, b)
-	if !ok || op != token.EQL {
+	v, isZero, ok := zeroTest(a, b)
+	if !ok || !isZero {
 		return false
 	}
-	if p, rooted := loadPathBelow(x, root); rooted && p == path && isZeroConst(y) {
-		return true
-	}
-	if p, rooted := loadPathBelow(y, root); rooted && p == path && isZeroConst(x) {
-		return true
-	}
-	return false
+	p, rooted := loadPathBelow(v, root)
+	return rooted && p == path
 }
 
 func nonZeroEdge(a, b *ssa.BasicBlock, path string, root ssa.Value) bool {
-	x, op, y, ok := edgeFact(a, b)
-	if !ok || op != token.NEQ {
+	v, isZero, ok := zeroTest(a, b)
+	if !ok || isZero {
 		return false
 	}
-	if p, rooted := loadPathBelow(x, root); rooted && p == path && isZeroConst(y) {
-		return true
-	}
-	if p, rooted := loadPathBelow(y, root); rooted && p == path && isZeroConst(x) {
-		return true
-	}
-	return false
+	p, rooted := loadPathBelow(v, root)
+	return rooted && p == path
 }
 
 // constLeaves collects the numeric constants a value is computed from, the library calls on the
